@@ -55,6 +55,23 @@ def run(R):
                 guarded = any(tm[0] == 'discr' and fld and fld[-1] in show(tm) and vals == [1] for s, vals, tm in g)
                 pushed = any(is_call(se.origin(pt['args'][1]), name='into_any') and se.origin(pt['args'][1])[4] is t for pb, pt in se.calls(name='push'))
                 seq.append((self_kind(t), fld[-1] if fld else None, guarded, pushed, bb))
+        if not seq:
+            # the same table as data: [details.retry_info.map(IntoAny::into_any), ..].into_iter().flatten().collect() — the kind packed
+            # is the field's own type (into_any is resolved by that type), None entries are skipped by flatten, order = array order
+            edt = {f_['n']: f_['ty'] for f_ in ty.adt('error_details::ErrorDetails')['variants'][0]['fields']}
+            fam_se = family(ty, se)
+            for m_ in fam_se:
+                for bb_, i_, p_, a_, ops_ in mirlib.aggregates(m_):
+                    if a_.get('kind') != 'array' or len(ops_) != len(kinds):
+                        continue
+                    ents = [strip_refs(mirlib.simplify(m_.origin(o_))) for o_ in ops_]
+                    if not all(is_call(e_, name='map') and 'Option' in e_[1] and has_fn(e_[2][1], 'into_any') for e_ in ents):
+                        continue
+                    flat_ = any(t_.get('name') == 'flatten' for bb2_, t_ in m_.calls()) and any(t_.get('name') == 'collect' for bb2_, t_ in m_.calls())
+                    for e_ in ents:
+                        fl_ = [n_ for n_ in field_names(e_[2][0]) if n_ in field_of.values()]
+                        kty_ = re.sub(r'^.*Option<(.*)>$', r'\1', edt.get(fl_[-1], '')).rsplit('::', 1)[-1] if fl_ else None
+                        seq.append((kty_, fl_[-1] if fl_ else None, flat_, flat_, bb_))
         R.eq([k for k, f, g, p, bb in seq], kinds, 'C20.R1', 'set-encoder:order', site(se), 'kinds pushed by the set encoder, in order')
         for k, f, g, p, bb in seq:
             R.check(f == field_of.get(k) and g and p, 'C20.R1', 'set-encoder:%s' % k, site(se, bb), '%s::into_any(details.%s) guarded by Some: %r, pushed: %r (spec field %s)' % (k, f, g, p, field_of.get(k)))
@@ -302,9 +319,11 @@ def run(R):
             wd = b.calls(name='with_details_and_metadata')
             R.check(len(gd) == 1 and len(wd) == 1, 'C20.R4', '%s:sites' % nm, site(b), 'gen_details_bytes %d, with_details_and_metadata %d' % (len(gd), len(wd)))
             if gd and wd:
-                c1, c2 = b.origin(gd[0][1]['args'][0]), b.origin(wd[0][1]['args'][0])
+                gdb = ty.body('richer_error::gen_details_bytes')
+                GC, GM, GD = param_of_type(gdb, r'(^|::)Code$'), param_of_type(gdb, r"^&('\w+ )?str$"), param_of_type(gdb, r'Vec<.*Any>')
+                c1, c2 = b.origin(gd[0][1]['args'][GC - 1]), b.origin(wd[0][1]['args'][0])
                 R.check(c1 == c2 and c1[0] == 'arg', 'C20.R4', '%s:same-code' % nm, site(b, gd[0][0]), 'inner code = %s, outer code = %s' % (show(c1), show(c2)))
-                m1, m2 = b.origin(gd[0][1]['args'][1]), b.origin(wd[0][1]['args'][1])
+                m1, m2 = b.origin(gd[0][1]['args'][GM - 1]), b.origin(wd[0][1]['args'][1])
                 core1 = through_calls(m1, {'deref', 'as_str', 'as_ref', 'borrow', 'clone', 'to_owned', 'to_string'})
                 core2 = through_calls(m2, {'deref', 'as_str', 'as_ref', 'borrow', 'clone', 'to_owned', 'to_string'})
                 same = core1 == core2 or show(core1) == show(core2)
@@ -322,7 +341,8 @@ def run(R):
             c = g.origin(ops[f.index('code')])
             m = g.origin(ops[f.index('message')])
             d = g.origin(ops[f.index('details')])
-            okg = c[0] == 'cast' and 'arg1' in show(c[2]) and 'arg2' in show(m) and show(strip_refs(d)).startswith('arg3')
+            GC, GM, GD = param_of_type(g, r'(^|::)Code$'), param_of_type(g, r"^&('\w+ )?str$"), param_of_type(g, r'Vec<.*Any>')
+            okg = c[0] == 'cast' and mentions_arg(c[2], GC) and mentions_arg(m, GM) and strip_refs(d)[:2] == ('arg', GD)
             R.check(okg, 'C20.R4', 'gen:fields', site(g, bb, i), 'pb::Status{code: %s, message: %s, details: %s}' % (show(c), show(m)[:40], show(d)))
             R.check(all(g.dominates(bb, rb) for rb in g.return_blocks()) and len(g.return_blocks()) == 1, 'C20.R4', 'gen:always-encodes', site(g), 'the status is built and encoded on every path (no early return for empty details)')
         R.check(len(ag) == 1, 'C20.R4', 'gen:one-status', site(g), 'pb::Status aggregates in gen_details_bytes: %d' % len(ag))
